@@ -77,6 +77,14 @@ where
         // the path is expected to be of the specified depth.
         let path = self.host.borrow_mut().get_adv_merkle_path(self)?;
 
+        // the path is supplied by the (untrusted) host: it must be exactly as long as the requested
+        // depth, otherwise a node of another level of the same tree would pass as the node at
+        // (depth, index)
+        let depth = self.stack.get(4);
+        if path.len() != depth.as_int() as usize {
+            return Err(ExecutionError::InvalidTreeDepth { depth });
+        }
+
         // use hasher to compute the Merkle root of the path
         let (addr, computed_root) = self.chiplets.build_merkle_root(node, &path, index);
 
